@@ -422,11 +422,11 @@ SHAPES_QUICK = ["record/base_arg", "record/base_arg_two_paths", "record/no_base"
                 "record_start_stop", "record_stop/no_preliminary", "match_products", "record/exclude_setting_special",
                 "run/exclude_setting_special", "match_products/base_setting_collision", "match_products/base_setting",
                 "match_products/base_setting_no_such_dir", "record/dir_exclude_setting_naming_dir",
-                "run/dir_exclude_setting_naming_dir"] + list(VERIFY_SHAPES)
+                "run/dir_exclude_setting_naming_dir", "run/timeout"] + list(VERIFY_SHAPES)
 
 
 SHAPES_THOROUGH = SHAPES_QUICK + ["record/ostree_ok",
-                                  "record_start/collision", "run/collision_products", "run/base_setting", "run/timeout"]
+                                  "record_start/collision", "run/collision_products", "run/base_setting"]
 
 
 def sequence_cases():
